@@ -358,6 +358,7 @@ type FuncResult struct {
 	Unsupported string
 	Params      []string
 	Shows       map[string]*Term
+	Axioms      []*Term
 }
 
 func (v *Verifier) VerifyFunc(c *Contract) (res *FuncResult) {
@@ -368,10 +369,11 @@ func (v *Verifier) VerifyFunc(c *Contract) (res *FuncResult) {
 		return
 	}
 	res.Fn = fn
-	ex := &Exec{V: v, nameCount: map[string]int{}, curFn: fn, curContract: c, strict: c.Strict, safetyProps: c.SafetyProps}
+	ex := &Exec{V: v, nameCount: map[string]int{}, curFn: fn, curContract: c, strict: c.Strict, safetyProps: c.SafetyProps, recDone: map[string]bool{}}
 	defer func() {
 		res.Obls = ex.obls
 		res.Assumptions = ex.assumptions
+		res.Axioms = ex.globalAxioms
 		if r := recover(); r != nil {
 			if u, ok := r.(Unsupported); ok {
 				res.Unsupported = u.Msg
